@@ -96,6 +96,7 @@ class World:
         self.I1 = mk('I1', self.I0)
         self.X = mk('X')
         self.P = mk('P')
+        self.PN = mk('PN', self.P)     # nothing is registered for it at first
         base_lookup = AdapterLookup if flavour == 'adapter' else VerifyingAdapterLookup
 
         class AuditLookup(base_lookup):
@@ -524,6 +525,9 @@ MUTATORS = {
     'rebase-registry': lambda w: setattr(w.reg, '__bases__', (w.base2,)),
     'classImplements': lambda w: classImplements(w.K, w.X),
     'rebase-interface': lambda w: setattr(w.I1, '__bases__', (w.X,)),
+    # the *first* registration for a provided interface (PN extends P): besides the
+    # registration itself the extendors of P have to change
+    'register-new-provided': lambda w: w.reg.register([w.I1], w.PN, '', w.fNEW),
     # removes the last registration for PA: PA leaves the extendors of P
     'unregister-unrelated-extendor': lambda w: w.reg.unregister([w.X], w.PA, ''),
 }
